@@ -112,7 +112,11 @@ def compare(ctx, rich, nontriv):
         raise core.Infra("generator emitted no environment facts")
     keys = sorted(cases)
     # the driver first re-checks the fact table against the standard library (exit 3 = Infra on a difference)
-    out = drive_cases(ctx, facts + [cases[k]["case"] for k in keys])[len(facts):]
+    allout = drive_cases(ctx, facts + [cases[k]["case"] for k in keys])
+    for f, o in zip(facts, allout[:len(facts)]):
+        if o.get("fact") == "goa":        # goa's own ErrorResponse (un)marshalling, not an environment fact
+            ctx.violation("C15/codec/%s/%s/does-not-round-trip" % (o.get("kind"), o.get("fmt")), o.get("detail", ""), {"fact": f, "observed": o})
+    out = allout[len(facts):]
     good_events, bad = [], []
     for k, o in zip(keys, out):
         g = cases[k]
